@@ -107,10 +107,7 @@ func c04arity(args []string) {
 		}
 		for n := 0; n <= top; n++ {
 			current = fmt.Sprintf("%s:%s/%d", fi.Pkg.Name, fi.Name, n)
-			as := make(slip.List, n)
-			for k := range as {
-				as[k] = slip.Fixnum(1)
-			}
+			as := c04Args(fi, n, req+opt)
 			o := h.Try(func() slip.Object {
 				f := fi.Create(as).(slip.Funky)
 				return f.Caller().Call(slip.NewScope(), as, 0)
@@ -129,4 +126,78 @@ func c04arity(args []string) {
 		}
 		current = ""
 	}
+}
+
+// c04Typed returns an inert argument of the documented type so that a call gets past the type checks as far
+// as possible and the count check is what decides.
+func c04Typed(typ string) slip.Object {
+	t := strings.ToLower(typ)
+	switch {
+	case strings.Contains(t, "vector") || strings.Contains(t, "array"):
+		// adjustable and with a fill pointer so that vector-push and friends get past their type checks
+		if o := h.Eval(slip.NewScope(), "(make-array 4 :fill-pointer 2 :adjustable t :initial-element 1)"); o.OK() {
+			return o.Val
+		}
+		return slip.NewVector(2, slip.TrueSymbol, nil, slip.List{slip.Fixnum(1), slip.Fixnum(2)}, true)
+	case strings.Contains(t, "list") || strings.Contains(t, "sequence") || strings.Contains(t, "cons") || strings.Contains(t, "tree"):
+		return slip.List{slip.Fixnum(1), slip.Fixnum(2)}
+	case strings.Contains(t, "string") || strings.Contains(t, "pathname"):
+		return slip.String("abc")
+	case strings.Contains(t, "character"):
+		return slip.Character('a')
+	case strings.Contains(t, "symbol"):
+		return slip.Symbol("vsym")
+	case strings.Contains(t, "function") || strings.Contains(t, "predicate"):
+		return slip.Symbol("car")
+	case strings.Contains(t, "float"):
+		return slip.DoubleFloat(1.5)
+	case strings.Contains(t, "boolean"):
+		return slip.True
+	}
+	return slip.Fixnum(1)
+}
+
+// c04Args builds n arguments for the function: typed positionals, then keyword/value pairs for &key parameters
+// (a dangling keyword when the count is odd), fixnums for anything beyond.
+func c04Args(fi *slip.FuncInfo, n, positional int) slip.List {
+	var pos, keys []*slip.DocArg
+	mode := 0
+	for _, a := range fi.Doc.Args {
+		switch strings.ToLower(a.Name) {
+		case "&optional":
+			mode = 1
+		case "&rest", "&body":
+			mode = 4
+		case "&key":
+			mode = 2
+		case "&aux":
+			mode = 3
+		case "&allow-other-keys":
+		default:
+			switch mode {
+			case 0, 1:
+				pos = append(pos, a)
+			case 2:
+				keys = append(keys, a)
+			}
+		}
+	}
+	as := make(slip.List, 0, n)
+	for k := 0; k < n; k++ {
+		switch {
+		case k < len(pos):
+			as = append(as, c04Typed(pos[k].Type))
+		case len(keys) > 0:
+			j := k - len(pos)
+			key := keys[(j/2)%len(keys)]
+			if j%2 == 0 {
+				as = append(as, slip.Symbol(":"+strings.ToLower(key.Name)))
+			} else {
+				as = append(as, c04Typed(key.Type))
+			}
+		default:
+			as = append(as, slip.Fixnum(1))
+		}
+	}
+	return as
 }
